@@ -43,7 +43,7 @@ def d1(cx: Cx, ob: Ob) -> None:
         if ne is not None:
             ns = cx.summary(ne, ob.id)
             me_, ot_ = ("param", ne.params[0].name), ("param", ne.params[1].name)
-            okne = all(t in (("not", ("cmp", "==", me_, ot_)), ("not", ("call", ("attr", me_, "__eq__"), (ot_,), ())), ("cmp", "!=", ("attr", me_, "pair"), ("attr", ot_, "pair"))) for t, _ in ns.returns())
+            okne = all(t in (("cmp", "!=", me_, ot_), ("not", ("cmp", "==", me_, ot_)), ("not", ("call", ("attr", me_, "__eq__"), (ot_,), ())), ("cmp", "!=", ("attr", me_, "pair"), ("attr", ot_, "pair"))) for t, _ in ns.returns())
             if not okne:
                 ob.violate(
                     ne.qualname,
